@@ -1130,7 +1130,7 @@ class CompartmentalSystem(Statement):
         cin = {comp for comp in onein if self.get_flow(central, comp) != 0}
         peripherals = list(cout & cin)
         # Return in deterministic order
-        peripherals = sorted(peripherals, key=lambda comp: comp.name)
+        peripherals = sorted(peripherals, key=lambda comp: (len(comp.name), comp.name))
         return peripherals
 
     def find_transit_compartments(self, statements: Statements) -> list[Compartment]:
